@@ -155,6 +155,15 @@ Theorem C09_default_vram : forall env senv ext final name at_ noload sub body st
             (0 < sa -> (sa | l_dot st) -> compatible sa A -> (sa | os_vma o)).
 Proof. exact default_vram. Qed.
 
+Example C09_default_vram_example :
+  let st' := exec_outsec [] [] [] true ".boot" None None false None
+                         [SInput false "b.o" None ".bss" true; SInput false "a.o" None ".text" true]
+                         (LState 96 [] [] [] [] c09_universe [] []) in
+  body_align None [SInput false "b.o" None ".bss" true; SInput false "a.o" None ".text" true] c09_universe 1 = 8 /\
+  (32 | 96) /\ compatible 32 8 /\
+  map os_vma (l_secs st') = [96] /\ map pl_addr (l_placed st') = [96; 104].
+Proof. vm_compute. repeat split; try reflexivity. exists 3; reflexivity. right. exists 4. reflexivity. Qed.
+
 (* ---------- SUBALIGN ---------- *)
 
 (* inside a body executed with SUBALIGN(s): everything appended to l_placed sits at a multiple of s *)
@@ -229,7 +238,7 @@ Example C09_no_spurious_example :
                                                          false None None [] [] None None None None None [] [] true None [])
                             cfg_normal [] c09_segment ws0 = Ok (s, ws') /\
                 aligns_of s = [SAlign "__romPos" 4096; SAlign "." 4096; SAlign "__romPos" 16; SAlign "." 16].
-Proof. eexists. eexists. split; [vm_compute; reflexivity | vm_compute; reflexivity]. Qed.
+Proof. eexists. eexists. split; [vm_compute; reflexivity|]. vm_compute. reflexivity. Qed.
 
 Print Assumptions C09_group_start.
 Print Assumptions C09_group_end.
